@@ -32,7 +32,7 @@ use num_bigint::BigUint;
 use num_traits::Zero;
 use std::collections::BTreeMap;
 use ::whirlpool::math::{MAX_SQRT_PRICE_X64, MIN_SQRT_PRICE_X64};
-use ::whirlpool::state::{Position, Whirlpool};
+use ::whirlpool::state::{Position, Tick, Whirlpool};
 
 /// exact entitlements of one position, scaled by 2^128 (hi = rounded up per contribution, lo = down)
 #[derive(Default, Clone)]
@@ -49,13 +49,14 @@ pub struct Shadow {
 }
 
 pub struct Snapshot {
+    pub ticks: Vec<(i32, Tick)>,
     pub wp: Whirlpool,
     pub positions: BTreeMap<u32, Position>,
     pub now: u64,
 }
 
 pub fn snapshot(w: &World) -> Snapshot {
-    Snapshot { wp: w.wp(), positions: w.positions.keys().map(|k| (*k, w.pos(*k).unwrap())).collect(), now: w.now }
+    Snapshot { ticks: w.all_ticks(), wp: w.wp(), positions: w.positions.keys().map(|k| (*k, w.pos(*k).unwrap())).collect(), now: w.now }
 }
 
 fn scale() -> BigUint {
@@ -185,7 +186,77 @@ fn check_position_credit(w: &mut World, pre: &Snapshot, ctx: &mut Ctx) {
 }
 
 /// C03 + C06 + per-step C02 on the trace of a successful swap, and fee shares for the shadow ledger
+/// C10: reference traversal over the abstract set of initialized ticks.  Hook-free part: from the
+/// pool and tick snapshots before / after; order and multiplicity: from the step trace.
+fn c10_traversal(w: &World, dir: bool, pre: &Snapshot, ctx: &mut Ctx) {
+    let post = w.wp();
+    let pre_ticks: BTreeMap<i32, Tick> = pre.ticks.iter().cloned().collect();
+    let post_ticks: BTreeMap<i32, Tick> = w.all_ticks().into_iter().collect();
+    let (t0, t1) = (pre.wp.tick_current_index, post.tick_current_index);
+    let mut expected: Vec<i32> = pre_ticks.keys().cloned().filter(|t| if dir { t1 < *t && *t <= t0 } else { t0 < *t && *t <= t1 }).collect();
+    if dir {
+        expected.reverse();
+    }
+    // liquidity = initial liquidity with every crossed tick's net applied exactly once
+    let mut liq = pre.wp.liquidity as i128;
+    for t in &expected {
+        let net = pre_ticks[t].liquidity_net;
+        liq = if dir { liq.wrapping_sub(net) } else { liq.wrapping_add(net) };
+    }
+    if liq as u128 != post.liquidity {
+        ctx.viol(format!(
+            "C10 after the swap (tick {} -> {}) the pool liquidity is {} but applying the liquidity_net of the initialized ticks in the path {:?} once each to {} gives {}",
+            t0, t1, { post.liquidity }, expected, { pre.wp.liquidity }, liq as u128
+        ));
+    }
+    if pre_ticks.keys().ne(post_ticks.keys()) {
+        ctx.viol("C10 a swap changed the SET of initialized ticks".to_string());
+        return;
+    }
+    for (t, a) in &pre_ticks {
+        let b = &post_ticks[t];
+        let crossed = expected.contains(t);
+        let (a_net, a_gross, b_net, b_gross) = (a.liquidity_net, a.liquidity_gross, b.liquidity_net, b.liquidity_gross);
+        if a_net != b_net || a_gross != b_gross {
+            ctx.viol(format!("C10 a swap changed liquidity_net / liquidity_gross of tick {}", t));
+        }
+        // the token that is NOT the input keeps its global growth during the swap
+        let (a_other, b_other, g_other) = if dir { (a.fee_growth_outside_b, b.fee_growth_outside_b, pre.wp.fee_growth_global_b) } else { (a.fee_growth_outside_a, b.fee_growth_outside_a, pre.wp.fee_growth_global_a) };
+        let (a_in, b_in) = if dir { (a.fee_growth_outside_a, b.fee_growth_outside_a) } else { (a.fee_growth_outside_b, b.fee_growth_outside_b) };
+        let (a_r, b_r) = (a.reward_growths_outside, b.reward_growths_outside);
+        if crossed {
+            if b_other != g_other.wrapping_sub(a_other) {
+                ctx.viol(format!("C10 tick {} lies in the swap path but its fee_growth_outside of the output token was not flipped (global - outside)", t));
+            }
+            for i in 0..3 {
+                let want = if post.reward_infos[i].initialized() { post.reward_infos[i].growth_global_x64.wrapping_sub(a_r[i]) } else { a_r[i] };
+                if b_r[i] != want {
+                    ctx.viol(format!("C10 tick {} lies in the swap path but reward_growths_outside[{}] was not flipped", t, i));
+                }
+            }
+        } else if a_other != b_other || a_in != b_in || a_r != b_r {
+            ctx.viol(format!("C10 tick {} does not lie in the swap path (tick {} -> {}) but its outside accumulators changed", t, t0, t1));
+        }
+    }
+    // order and multiplicity from the step trace
+    let from_trace: Vec<i32> = w
+        .last_trace
+        .iter()
+        .filter(|s| (MIN_TICK_I..=MAX_TICK_I).contains(&s.next_tick_index) && s.next_price == ::whirlpool::math::sqrt_price_from_tick_index(s.next_tick_index) && pre_ticks.contains_key(&s.next_tick_index))
+        .map(|s| s.next_tick_index)
+        .collect();
+    if from_trace != expected {
+        ctx.viol(format!("C10 the swap loop crossed the initialized ticks {:?} but the initialized ticks between start and end are {:?} (in price order)", from_trace, expected));
+    }
+    if !expected.is_empty() {
+        ctx.tag(if expected.len() > 1 { "c10_crossed_many" } else { "c10_crossed_one" });
+    }
+}
+const MIN_TICK_I: i32 = -443636;
+const MAX_TICK_I: i32 = 443636;
+
 fn swap_oracles(w: &mut World, t: &[&str], pre: &Snapshot, ctx: &mut Ctx) {
+    c10_traversal(w, t[5] == "1", pre, ctx);
     let amount: u64 = t[2].parse().unwrap();
     let limit: u128 = t[3].parse().unwrap();
     let ein = t[4] == "1";
@@ -436,7 +507,7 @@ pub fn after_op(w: &mut World, t: &[&str], res: &Result<String, String>, pre: &S
     }
     c05(w, ctx);
     c13_sizes(w, ctx);
-    if t[1] == "swap" {
+    if t[1] == "swap" || t[1] == "pswap" {
         swap_oracles(w, t, pre, ctx);
     }
     accrue_rewards(w, pre, ctx);
@@ -461,7 +532,7 @@ pub fn after_op(w: &mut World, t: &[&str], res: &Result<String, String>, pre: &S
             w.trader_a = 0;
             w.trader_b = 0;
         }
-        "swap" => {
+        "swap" | "pswap" => {
             if w.trader_a >= 0 && w.trader_b >= 0 && (w.trader_a > 0 || w.trader_b > 0) {
                 ctx.viol(format!(
                     "C01 no-free-lunch: after swapping back and forth (no liquidity change in between) the trader is up {} A and {} B",
